@@ -33,6 +33,9 @@ def rows_for_minute(case):
         for p in case["pods"]:
             rows.append(common.call_rule("ruleTODPOD", ts, [T.Time(hour=h), T.Time(POD=p)]))
             rows.append(common.call_rule("rulePODTOD", ts, [T.Time(POD=p), tod]))
+    elif mi == 30:
+        for p in case["pods"]:
+            rows.append(common.call_rule("ruleTODPOD", ts, [T.Time(hour=h, minute=mi), T.Time(POD=p)]))
     else:
         rows.append(common.call_rule("ruleQuarterAfterHH", ts, [common.token("ruleQuarterAfterHH", "quarter past"), T.Time(hour=h, minute=mi)]))
     # latent anchoring of this minute from reference minutes around it
@@ -62,6 +65,7 @@ def run(ctx):
                         "four-digit HHMM without 'uhr/h' only for minutes that are multiples of 5 and not year-like (documented heuristic)"]
     ctx.mc("MC_Denote", "MC_Denote_C06_q.cfg" if ctx.quick else "MC_Denote_C06_t.cfg", timeout=3000)
     pods = [p for p in qa.PODS if p in qa.T.pod_hours]
+    allpods = sorted(qa.T.pod_hours)        # every key of the table, modifiers included ("earlyafternoon" starts at 11 but is pm)
     cases = []
     for h in range(24):
         for mi in range(60):
@@ -70,7 +74,7 @@ def run(ctx):
             if not ctx.quick:
                 refs = sorted(set(refs) | set(range(0, 1440, 7)))
             for ts in ((2019, 12, 31, 12, 0), (2020, 2, 28, 12, 0)) + (() if ctx.quick else ((2021, 4, 30, 12, 0),)):
-                cases.append({"hm": (h, mi), "ts": ts, "refs": refs, "pods": pods if ts[1] == 12 else pods[:3]})
+                cases.append({"hm": (h, mi), "ts": ts, "refs": refs, "pods": allpods if (ts[1] == 12 and mi in (0, 30)) else pods[:3]})
     core.run_stage(ctx, "rule-rows", cases, rows_for_minute, "RulesTrace", sig_keys=(), nontrivial=lambda c: (c["hm"], c["ts"]))
     # end to end, latent off: every notation of the minute
     minutes = [0, 5, 15, 30, 45, 59] if ctx.quick else list(range(60))
@@ -79,6 +83,12 @@ def run(ctx):
         for mi in minutes:
             for lab, text, C in G.clock_forms(h, mi):
                 cases.append({"text": text, "C": C, "ts": (2018, 3, 7, 12, 43), "latent": 0, "label": lab, "form": lab})
+    for h in range(1, 12):
+        for ph, pm in (("in the early afternoon", 1), ("am frühen nachmittag", 1), ("in the late evening", 1), ("in the late morning", 0),
+                       ("am späten vormittag", 0), ("in the early evening", 1)):
+            for f in ("%d uhr %s", "%d:00 %s", "at %d o'clock %s"):
+                cases.append({"text": f % (h, ph), "C": G.clock(h + 12 * pm, 0), "ts": (2018, 3, 7, 12, 43), "latent": 0,
+                              "label": "clock:h uhr modified POD", "form": "clock:h uhr modified POD"})
     core.run_stage(ctx, "e2e-notations", cases, e2e.obs_clock, "DenoteTrace")
     # latent on: reference times on both sides of the requested minute, incl. equality and roll-overs
     cases = []
